@@ -966,6 +966,11 @@ static long do_call(jv *c, jv **extra)
     }
     return 0;
   }
+  if (!strcmp(fn, "pclose")) {   /* the caller closes some of its own descriptors */
+    jv *l = j_get(c, "fds");
+    for (int i = 0; l && i < l->n; i++) sk_child_close(0, (int) l->a[i]->i);
+    return 0;
+  }
   if (!strcmp(fn, "plimit")) {
     K->rlimit_nofile = (int) j_int(c, "limit", 64);
     jv *op = j_get(c, "open");
@@ -1166,6 +1171,7 @@ static jv *run_conc(jv *st)
   for (int t = 0; t < co_n; t++) j_push(tms, siglist(co[t].mask, 64));
   j_put(x, "tmasks", tms);
   j_put(x, "penv", obs_key("penv", st, 0, NULL));
+  j_put(x, "mon", obs_key("mon", st, 0, NULL));
   return x;
 }
 
@@ -1176,6 +1182,7 @@ static jv *conc_obs(void)
   for (int h = 1; h < MAXH; h++) {
     int p = child_of(h);
     if (p < 0) continue;
+    if (!K->proc[p].execd && !K->proc[p].forkmode_child) continue;   /* a start that failed before exec left no child at the contract level */
     jv *call = j_mkobj(); j_put(call, "h", j_mkint(h));
     jv *e = j_mkobj();
     j_put(e, "h", j_mkint(h));
